@@ -127,6 +127,41 @@ fn items() -> Vec<Item> {
     out
 }
 
+/// long lists: n filler ranges (unrelated concrete types, or ranges more specific than any other)
+/// with the deciding ranges first, last or in the middle — negotiation has no length limit
+fn long_lists(thorough: bool) -> Vec<Vec<Item>> {
+    let leak = |s: String| -> &'static str { Box::leak(s.into_boxed_str()) };
+    let it = |t: &'static str, s: &'static str, p: usize, q: Q| Item { range: Some((t, s)), extra_params: p, q };
+    let tails: Vec<Vec<Item>> = vec![
+        vec![it("*", "*", 0, Q::Val("0.8", 800))],
+        vec![it("application", "x-jackson-smile", 0, Q::Absent)],
+        vec![it("application", "x-jackson-smile", 0, Q::Absent), it("*", "*", 0, Q::Val("0.1", 100))],
+        vec![it("application", "json", 0, Q::Val("0", 0)), it("*", "*", 0, Q::Absent)],
+        vec![it("application", "*", 0, Q::Val("0.5", 500)), it("application", "json", 0, Q::Val("0", 0))],
+        vec![it("text", "*", 0, Q::Val("0.3", 300)), it("application", "*", 1, Q::Val("0.2", 200))],
+    ];
+    let lens: Vec<usize> = if thorough { vec![8, 15, 16, 17, 18, 31, 32, 33, 63, 64, 65, 100, 128, 255, 256, 257] } else { vec![15, 16, 17, 33, 64] };
+    let mut out = vec![];
+    for n in lens {
+        for kind in 0..2 {
+            let filler: Vec<Item> = (0..n).map(|i| if kind == 0 { it("image", leak(format!("t{}", i)), 0, if i % 3 == 0 { Q::Val("0.9", 900) } else { Q::Absent }) } else { it("audio", leak(format!("a{}", i)), 1, Q::Absent) }).collect();
+            for tail in &tails {
+                let mut last = filler.clone();
+                last.extend(tail.iter().cloned());
+                out.push(last);
+                let mut first = tail.clone();
+                first.extend(filler.iter().cloned());
+                out.push(first);
+                let mut mid = filler[..n / 2].to_vec();
+                mid.extend(tail.iter().cloned());
+                mid.extend(filler[n / 2..].iter().cloned());
+                out.push(mid);
+            }
+        }
+    }
+    out
+}
+
 /// a reduced alphabet for lists one item longer than the full alphabet affords
 fn reduced_items() -> Vec<Item> {
     let ranges: [(Option<(&'static str, &'static str)>, usize); 6] =
@@ -413,6 +448,15 @@ pub fn run(args: &Args) -> Report {
             let n_items = wanted.split(',').count();
             let red = reduced_items();
             let mut done = false;
+            if n_items > 4 {
+                for list in long_lists(true) {
+                    if list.iter().map(|i| i.text()).collect::<Vec<_>>().join(",").replace(' ', "") == wanted {
+                        check_list(&list, &reg, &rt, &mut report);
+                        done = true;
+                        break;
+                    }
+                }
+            }
             for (alphabet, max_len) in [(&its, 3usize), (&red, 4usize)] {
                 if done || n_items > max_len {
                     continue;
@@ -473,6 +517,28 @@ pub fn run(args: &Args) -> Report {
                 },
             )
             .map(|(r, _)| r)
+            .reduce(|| Report::new("C11", "model_checking"), |mut a, b| {
+                a.merge(b);
+                a
+            });
+        report.merge(part);
+    }
+    // long lists
+    {
+        let lists = long_lists(args.tier.is_thorough());
+        report.bound("long_lists", lists.len());
+        let part = lists
+            .par_iter()
+            .fold(
+                || Report::new("C11", "model_checking"),
+                |mut r, list| {
+                    for reg in &regs {
+                        let rt = runtime(reg);
+                        check_list(list, reg, &rt, &mut r);
+                    }
+                    r
+                },
+            )
             .reduce(|| Report::new("C11", "model_checking"), |mut a, b| {
                 a.merge(b);
                 a
